@@ -125,3 +125,23 @@ def count_open(streams, r):
     (reserved states do not count).  StreamState: OPEN=3, HALF_CLOSED_REMOTE=4,
     HALF_CLOSED_LOCAL=5."""
     return sum(1 for k in streams if streams[k].state_machine.state.value in (3, 4, 5) and k % 2 == r)
+
+
+# ---------------------------------------------------------------------------
+# C02: shape of a header block in the emitted frame sequence
+def header_block_ok(frames, start, first_cls, sid, max_size):
+    """frames[start:] is one contiguous header block: a HEADERS / PUSH_PROMISE
+    frame followed only by CONTINUATION frames on the same stream, END_HEADERS
+    on the last frame only, every payload within the peer's MAX_FRAME_SIZE."""
+    return (len(frames) > start
+            and class_name(frames[start]) == first_cls
+            and all(class_name(f) == "ContinuationFrame" for f in frames[start + 1:])
+            and all(f.stream_id == sid for f in frames[start:])
+            and all(not ("END_HEADERS" in f.flags) for f in frames[start:-1])
+            and ("END_HEADERS" in frames[-1].flags)
+            and all(f.body_len <= max_size for f in frames[start:]))
+
+
+def max_concurrent(settings):
+    return (setting_current(settings, S_MAX_CONCURRENT_STREAMS)
+            if setting_has(settings, S_MAX_CONCURRENT_STREAMS) else 4294967297)
